@@ -356,6 +356,50 @@ def _normalise_template(n: ast.JoinedStr) -> str:
 # AS: what the engine hands to the artifact store
 # ---------------------------------------------------------------------------------------------
 
+def _saved_for(ctx: Ctx, sv: Ev, gs, key_expr: Optional[ast.AST], val_expr: Optional[ast.AST]) -> Dict[str, object]:
+    """For each class of published value (None, falsy, truthy, Recurrent marker, exception object): is the save reached?
+    The guard conditions of the save are interpreted in a world where the store holds that value for the node and the saved
+    expression evaluates to it.  -> class -> True (always) / False (never) / 'sometimes'."""
+    from ..absint import AObj, ARaise, Interp, Oracle, TOP, enumerate_outcomes, value_token
+    from .st import _abstract_world, _dag_class
+    unit = sv.inst.unit
+    fenv = FuncEnv.of(ctx.p, unit)
+    dcls = _dag_class(ctx)
+    val_names = {n.id for n in ast.walk(val_expr) if isinstance(n, ast.Name)} if val_expr is not None else set()
+    key_names = {n.id for n in ast.walk(key_expr) if isinstance(n, ast.Name)} if key_expr is not None else set()
+    res: Dict[str, object] = {}
+    for vc in ('NONE', 'FALSY', 'TRUTHY', 'REC', 'EXC'):
+        def run(oracle: Oracle, vc=vc):
+            value = value_token(ctx.p, vc)
+            mgr, storage, adag = _abstract_world(ctx, {'node_results': {'N': ('visible', value)},
+                                                       'processed_nodes': {'N': ('visible', None)}}, dag_nodes=('N',), dest='N')
+            env = {'__unit__': unit, '__closure__': None, '__module__': unit.module, '__self__': mgr}
+            for name in fenv.local_defs():
+                t = fenv.name_type(name)
+                if name == 'self':
+                    env[name] = mgr
+                elif t[0] == 'class' and t[1] is dcls:
+                    env[name] = adag
+                elif name in val_names:
+                    env[name] = value
+                elif name in key_names:
+                    env[name] = 'N'
+                else:
+                    env[name] = TOP
+            interp = Interp(ctx.p, oracle)
+            for e, pol in gs:
+                try:
+                    v = interp.truth(interp.eval(e, env))
+                except ARaise:
+                    return False
+                if v != pol:
+                    return False
+            return True
+        outs = {o[1] for o in enumerate_outcomes(run) if o[0] == 'value'}
+        res[vc] = True if outs == {True} else (False if outs == {False} else 'sometimes')
+    return res
+
+
 def rule_saves(ctx: Ctx, out: Collector) -> None:
     """AS-1: a Recurrent marker / a contained failure is never saved.  AS-2: only the owner of an execution
     saves, and a value that a re-iteration can supersede is not saved immediately.  AS-3: what is saved is
@@ -385,29 +429,29 @@ def rule_saves(ctx: Ctx, out: Collector) -> None:
             else:
                 out.bad('AS-3', cons, sv.where(), 'the artifact store receives a node id / value different from the one published to the '
                                                   'consumers')
-            # ---- AS-1: is the value known not to be a marker / an exception at the save?
+            # ---- AS-1 / AS-6: the conditions under which the save is reached, evaluated for every class of published value
             gs = guards(sv.inst.unit.node, c)
-            vname = unparse(val_expr) if val_expr is not None else ''
-
-            def excluded(clsname: str) -> bool:
-                for e, pol in gs:
-                    if not pol and isinstance(e, ast.Call) and isinstance(e.func, ast.Name) and e.func.id == 'isinstance' \
-                            and len(e.args) == 2 and unparse(e.args[0]) == vname and clsname in unparse(e.args[1]):
-                        return True
-                return False
-
+            saved_for = _saved_for(ctx, sv, gs, c.args[0] if c.args else None, val_expr)
             cons = cons_base + ' [never a Recurrent marker]'
-            if excluded('Recurrent'):
-                out.ok('AS-1', cons, sv.where(), 'guarded by not isinstance(value, Recurrent)')
+            if not saved_for['REC']:
+                out.ok('AS-1', cons, sv.where(), 'the save is not reached for a Recurrent marker')
             else:
                 out.bad('AS-1', cons, sv.where(), f'{sym.show(val)} is saved without excluding a Recurrent marker: an intermediate marker '
                                                   f'becomes the node\'s artifact, and with a write-once store the later final value is rejected')
             cons = cons_base + ' [never a contained failure]'
-            if excluded('Exception') or excluded('BaseException'):
-                out.ok('AS-1', cons, sv.where(), 'guarded by not isinstance(value, BaseException)')
+            if not saved_for['EXC']:
+                out.ok('AS-1', cons, sv.where(), 'the save is not reached for an exception object')
             else:
                 out.bad('AS-1', cons, sv.where(), f'{sym.show(val)} is saved without excluding exception objects: inside a one-of dag the '
                                                   f'contained failure of a losing candidate is saved as the node\'s artifact')
+            cons = cons_base + ' [every final value is saved]'
+            lost = [k for k in ('NONE', 'FALSY', 'TRUTHY') if saved_for[k] is not True]
+            if not lost:
+                out.ok('AS-6', cons, sv.where(), 'None, falsy and truthy final values all reach the save')
+            else:
+                names = {'NONE': 'None', 'FALSY': 'a falsy value (0, empty)', 'TRUTHY': 'an ordinary value'}
+                out.bad('AS-6', cons, sv.where(), 'the condition guarding the save is false for ' + ', '.join(names[k] for k in lost)
+                        + ': a node that was executed and whose consumers received that value has no artifact')
             # ---- AS-2: owner only
             barrier = {m_.ev.id for m_ in marks if m_.key == key}
             s = Search(ctx.p, g, EXC_LABELS)
